@@ -7,8 +7,9 @@ import (
 	"fmt"
 	"io"
 	"log"
+	"runtime"
+	"runtime/debug"
 	"testing"
-	"time"
 
 	"pgregory.net/rapid"
 
@@ -19,6 +20,10 @@ func TestMain(m *testing.M) {
 	// bluge reports every rejected snapshot with log.Printf; hundreds of thousands of rejections
 	// are the point of this check
 	log.SetOutput(io.Discard)
+	// the allocation bound is measured with runtime.ReadMemStats (stops the world twice per
+	// call): few Ps keep that cheap; the shards are processes, parallelism comes from them
+	runtime.GOMAXPROCS(4)
+	debug.SetGCPercent(400)
 	vlib.Main(m)
 }
 
@@ -31,6 +36,15 @@ var ev = vlib.NewEvidence("C12",
 // round trip
 
 func propRoundTrip(c SnapCase) (f *vlib.Failure, file []byte, b built) {
+	f = watched(func() *vlib.Failure {
+		var f *vlib.Failure
+		f, file, b = propRoundTripUnwatched(c)
+		return f
+	})
+	return f, file, b
+}
+
+func propRoundTripUnwatched(c SnapCase) (f *vlib.Failure, file []byte, b built) {
 	b = buildCase(c)
 	if b.harnessE != nil {
 		return vlib.Failf("harness-bug", "%v", b.harnessE), nil, b
@@ -38,7 +52,7 @@ func propRoundTrip(c SnapCase) (f *vlib.Failure, file []byte, b built) {
 	// implementation: encode
 	var buf bytes.Buffer
 	var n int64
-	if f := vlib.Watchdog("Snapshot.WriteTo", 120*time.Second, func() *vlib.Failure {
+	if f := guarded("Snapshot.WriteTo", func() *vlib.Failure {
 		var err error
 		n, err = newSnapshot(c.Epoch, b.infos).WriteTo(&buf, nil)
 		if err != nil {
